@@ -106,13 +106,13 @@ def _norm(obs, factory):
 
 @harness(
     "C16",
-    dom={"fi": (0, len(FAMILIES) - 1), "cut": (0, max(_LEN) // STRIDE + 1), "end": (0, 2)},
+    dom={"fi": (0, len(FAMILIES) - 1), "cut": (0, max(_LEN) // STRIDE + 1), "end": (0, 4)},
     split={"fi": "each", "cut": 4},
     thorough_split={"fi": "each", "cut": 16},
     witnesses=[{"fi": 0, "cut": 2, "end": 0}, {"fi": 2, "cut": 3, "end": 1}, {"fi": 3, "cut": 2, "end": 2}],
     budget={"quick": 300, "thorough": 1800},
     per_path=240,
-    bounds="7 session families (HTTP/1.1 pipeline incl. a slow request and Connection: close, chunked upload + half-close, HTTP/2 with two streams, WebSocket session, garbage after a request, HTTP/1.0, slow request then reset) x every two-way split of the client's first flight (quick: every 8th offset) x ending {keep waiting 7 s, EOF after 0.5 s, reset after 0.5 s}; identical actions on both workers",
+    bounds="7 session families (HTTP/1.1 pipeline incl. a slow request and Connection: close, chunked upload + half-close, HTTP/2 with two streams, WebSocket session, garbage after a request, HTTP/1.0, slow request then reset) x every two-way split of the client's first flight (quick: every 8th offset) x ending {keep waiting 7 s, EOF after 0.5 s, reset after 0.5 s, half-close instead of the rest of the flight, reset instead of the rest}; identical actions on both workers",
     encodes=["hypercorn/asyncio/tcp_server.py::TCPServer.run", "hypercorn/trio/tcp_server.py::TCPServer.run", "hypercorn/asyncio/tcp_server.py::TCPServer.protocol_send", "hypercorn/trio/tcp_server.py::TCPServer.protocol_send",
              "hypercorn/asyncio/task_group.py::TaskGroup.spawn_app", "hypercorn/trio/task_group.py::TaskGroup.spawn_app", "hypercorn/asyncio/worker_context.py::EventWrapper.wait", "hypercorn/trio/worker_context.py::EventWrapper.wait"],
     stubs=["tier C runtimes (virtual asyncio loop / trio MockClock)", "wall clock pinned so that the date header is identical"],
@@ -125,7 +125,7 @@ def worker_differential(fi: int, cut: int, end: int) -> bool:
     enter()
     fi = conc(fi, 0, len(FAMILIES) - 1)
     cut = conc(cut, 0, max(_LEN) // STRIDE + 1) * STRIDE + (fi % STRIDE)
-    end = conc(end, 0, 2)
+    end = conc(end, 0, 4)
     data = _data(fi)
     if cut > len(data):
         return done(True, skipped="cut beyond the first flight")
@@ -133,6 +133,22 @@ def worker_differential(fi: int, cut: int, end: int) -> bool:
     if cut:
         acts.append(("feed", data[:cut]))
         acts.append(("sleep", 0.25))
+    if end >= 3:
+        # the client gives up in the middle of its first flight: half-close (3) or reset (4) instead of the rest
+        acts.append(("eof",) if end == 3 else ("reset",))
+        acts.append(("sleep", 7.0))
+        results = {}
+        for flavour in ("asyncio", "trio"):
+            factory = _factory()
+            obs = run_session(flavour, factory, make_config(keep_alive_timeout=5.0), acts, alpn="h2" if fi == 2 else None)
+            results[flavour] = _norm(obs, factory)
+        a, t = results["asyncio"], results["trio"]
+        why = ""
+        for key in ("app", "closed_at", "handler_done", "handler_error", "snaps"):
+            if a[key] != t[key]:
+                why = f"{key} differs: asyncio={a[key]!r} trio={t[key]!r}"[:1500]
+                break
+        return done(why == "", family=FAMILIES[fi], cut=cut, end=["wait", "EOF", "reset", "truncated + EOF", "truncated + reset"][end], why=why)
     if cut < len(data):
         acts.append(("feed", data[cut:]))
     if fi == 3:
